@@ -375,7 +375,7 @@ def opAttr (w : World) (x a : Nat) (v : CDv) : World × Ans :=
     | some ver =>
       match setAttrHdr S V h a v ver with
       | none => (w, .err)
-      | some h' => (setModel w k (m.setRoot (m.rootItems.modify x fun _ k0 => (h', k0))), .ok "")
+      | some _ => (setModel w k (m.setRoot (m.rootItems.modify x fun h0 k0 => ((setAttrHdr S V h0 a v ver).getD h0, k0))), .ok "")
 
 /-- `CharacterData::parse` -/
 def parseValue (s : Bytes) (sp : CSpec) (ver : Nat) : Option CDv :=
@@ -405,9 +405,9 @@ def opAttrS (w : World) (x a : Nat) (s : Bytes) : World × Ans :=
         else match parseValue V s (S.cspec cd) ver with
           | none => (w, .err)
           | some v =>
-            let h' := if h.attrs.any (·.1 == a) then { h with attrs := h.attrs.map fun e => if e.1 == a then (a, v) else e }
-              else { h with attrs := h.attrs ++ [(a, v)] }
-            (setModel w k (m.setRoot (m.rootItems.modify x fun _ k0 => (h', k0))), .ok "")
+            let upd (h0 : Hdr) : Hdr := if h0.attrs.any (·.1 == a) then { h0 with attrs := h0.attrs.map fun e => if e.1 == a then (a, v) else e }
+              else { h0 with attrs := h0.attrs ++ [(a, v)] }
+            (setModel w k (m.setRoot (m.rootItems.modify x fun h0 k0 => (upd h0, k0))), .ok "")
 
 /-- `remove_attribute` -/
 def opRmAttr (w : World) (x a : Nat) : World × Ans :=
@@ -433,8 +433,7 @@ def opRmAttr (w : World) (x a : Nat) : World × Ans :=
       | some (_, req, _) =>
         if req then (w, .ok "false")
         else
-          let h' := { h with attrs := h.attrs.filter (·.1 != a) }
-          (setModel w k (m.setRoot (m.rootItems.modify x fun _ k0 => (h', k0))), .ok "true")
+          (setModel w k (m.setRoot (m.rootItems.modify x fun h0 k0 => ({ h0 with attrs := h0.attrs.filter (·.1 != a) }, k0))), .ok "true")
       | none => (w, .ok "false")
     else (w, .ok "false")
 
